@@ -67,16 +67,20 @@ def main():
     dst_root = os.path.join(HERE, "seeded")
     rows = []
     args = sys.argv[1:]
-    # arguments: <seedout> <seedres> [<seedout2> <seedres2>]  (the second pair is stored under the letters C, D)
+    # arguments: <seedout> <seedres> [<seedout2> <seedres2> [<seedout3> <seedres3>]]  (the second pair is stored under
+    # the letters C, D, the third under E, F)
     rows += process(args[0], args[1], {})
     if len(args) >= 4:
         rows += process(args[2], args[3], {"A": "C", "B": "D"})
+    if len(args) >= 6:
+        rows += process(args[4], args[5], {"A": "E", "B": "F"})
     rows.sort()
     with open(os.path.join(dst_root, "README.md"), "w") as fh:
         fh.write("# Seeded changes\n\nOne directory per kept change: `patch.diff` (apply with `git -C /repo apply`, undo with "
                  "`git -C /repo checkout -- .`), `demo.py` (exit 0 on the clean tree, non-zero with the change), `meta.json`.\n"
                  "All changes pass the repository's test-suite (apart from the baseline-flaky tests); see `meta.json` for the run.\n"
-                 "Letters A, B: first round of sub-agents; C, D: second, independent round (some repeat an idea of round 1).\n\n"
+                 "Letters A, B: first round of sub-agents; C, D: second, independent round (some repeat an idea of round 1); "
+                 "E, F: a small third round (8 properties) run against the final machinery.\n\n"
                  "| id | change | needs in order to manifest | detected by (exit, first failing clauses) |\n|---|---|---|---|\n")
         for key, pid, change, needs, confirmed, keep, suite, det in rows:
             dets = "; ".join(f"{c}: exit {rc}" + (f" [{cl}]" if cl else "") for c, rc, n, cl in det)
